@@ -325,7 +325,26 @@ def timer_prop(pid, modules, technique, nontrivial):
 C08 = timer_prop("C08", ["Props.C08"], "Lean theorems C08_upper / C08_lower over all refresh/poll sequences of the timer model + constants and formula text regenerated from source + real-time validation", "distinct refresh schedules / send patterns")
 C09 = timer_prop("C09", ["Props.C09", "Props.SessionSkeleton"], "Lean theorems C09_live / silence_bound (timer) and C09_probe / disconnect / cancel (session model) + formula text regenerated from source + real-time probe/disconnect scenarios", "distinct inbound arrival patterns")
 
-PROPS = {"C08": C08, "C09": C09, "C04": C04, "C13": C13, "C05": C05, "C20": C20, "C19": C19, "C06": C06, "C07": C07, "C10": C10, "C14": C14, "C15": C15, "C16": C16, "C01": C01, "C17": C17, "C02": C02, "C18": C18, "C03": C03, "C11": C11}
+def C12(ctx):
+    if common_prelude(ctx, ["Props.C12"]):
+        n = sizes(ctx, 16, 200)
+        b = sizes(ctx, 3, 12)
+        for sd in seeds(ctx):
+            res = run_harness(ctx, f"gen-{sd}", "gen", ["-seed", str(sd), "-n", str(n), "-build", str(b), "-repo", os.environ.get("VERIF_REPO", "/repo")])
+            fold(ctx, res, ["C12"], f"generator model vs real generator, seed {sd}")
+    ctx.rules.append("the real generator (as a library, Doc/Config structures) on source/fix44.xml, on generator/testdata/fix.4.4.xml with and without its deliberate duplicates, and on seeded mutations "
+                     "(remove / shuffle / add / rename members and fields, toggle required, retype the type mapping, add groups, duplicate numbers / msgtypes, shuffle the header around the excluded framing fields); "
+                     "the emitted files are parsed (go/parser) into canonical declaration lines and compared with the Lean model's output for the same schema (1000-5900 declarations per schema); go-side oracles: "
+                     "two generations into different (nested) directories are byte-identical, tests/fix44 equals a fresh generation declaration for declaration, every setter of the reference package puts "
+                     "<schema number>=<value> on the wire and the getter returns it, getter and setter use the same index, every group occurrence gets its own members, selected packages compile (go build); "
+                     "non-trivial = distinct schema variants")
+    return finish(ctx, "proof", "Lean theorems over the abstract generator (C12_index, C12_items, C12_args, C12_types, C12_consts, C12_reject_dups) + correspondence of emitted declarations with the model + compile / determinism / reference-package oracles",
+                  TRUSTED_COMMON + ["go/parser-based abstraction of the emitted files to declaration lines (harness cmd/gen)",
+                                    "'the emitted package compiles' is checked with the Go compiler on the schemas explored, not proved"],
+                  ["schemas keep identifiers unique and Go-safe (enum descriptions, names)"], CHECKER)
+
+
+PROPS = {"C12": C12, "C08": C08, "C09": C09, "C04": C04, "C13": C13, "C05": C05, "C20": C20, "C19": C19, "C06": C06, "C07": C07, "C10": C10, "C14": C14, "C15": C15, "C16": C16, "C01": C01, "C17": C17, "C02": C02, "C18": C18, "C03": C03, "C11": C11}
 
 
 def replay(ctx, path):
